@@ -392,3 +392,477 @@ Proof.
     destruct (passes_err_char _ _ _ _ _ P3) as (ob & o & _ & Hex & Ho & F).
     exists o. split; [exact Ho|]. apply (fail_on_opt_fail _ ob); auto.
 Qed.
+
+(* ---------- [build] is the fold of the list, in list order, over the existing objects ---------- *)
+Lemma apply_opt_char c o s :
+  apply_opt c o s = match opt_fail c o with
+                    | Some e => Err e
+                    | None => Ok (if exists_obj c (opt_target o) then apply_writes (opt_writes o) s else s)
+                    end.
+Proof.
+  unfold apply_opt, opt_fail. destruct (pre_ok o); simpl; [|reflexivity].
+  destruct (exists_obj c (opt_target o)); [|reflexivity]. destruct (post_err o); reflexivity.
+Qed.
+
+Lemma fold_opts_ok c opts : forall s s', fold_opts c opts s = Ok s' <->
+  (forall o, In o opts -> opt_fail c o = None)
+  /\ s' = fold_left (fun s o => if exists_obj c (opt_target o) then apply_writes (opt_writes o) s else s) opts s.
+Proof.
+  induction opts as [|o t IH]; intros s s'; simpl.
+  - split; [intros H; inversion H; split; [intros ? []|reflexivity] | intros [_ ->]; reflexivity].
+  - rewrite apply_opt_char. destruct (opt_fail c o) eqn:F; simpl.
+    + split; [discriminate|]. intros [H _]. rewrite (H o (or_introl eq_refl)) in F. discriminate.
+    + rewrite IH. split; intros [H ->]; (split; [|reflexivity]).
+      * intros o' [<-|Ho']; auto.
+      * intros o' Ho'. apply H. right. exact Ho'.
+Qed.
+
+Theorem flat_agree k opts s : build k opts = Ok s <-> build_flat k opts = Ok s.
+Proof.
+  rewrite build_ok_iff. unfold build_flat, valid, spec. set (c := ctx_of k opts). split.
+  - intros [V ->]. apply andb_true_iff in V. destruct V as [V NO]. rewrite forallb_opt_ok in V.
+    destruct (fold_opts c opts defaults) as [s'| |] eqn:F.
+    + apply fold_opts_ok in F. destruct F as [_ ->]. fold (settled c opts). cbn [bind]. unfold finish.
+      rewrite NO. reflexivity.
+    + exfalso. assert (fold_opts c opts defaults = Ok (settled c opts)) as F' by (apply fold_opts_ok; auto).
+      congruence.
+    + exfalso. assert (fold_opts c opts defaults = Ok (settled c opts)) as F' by (apply fold_opts_ok; auto).
+      congruence.
+  - destruct (fold_opts c opts defaults) as [s'| |] eqn:F; cbn [bind]; try discriminate.
+    apply fold_opts_ok in F. destruct F as [V ->]. fold (settled c opts). unfold finish.
+    destruct (net_ok c (settled c opts)) eqn:NO; [|discriminate]. intros H; inversion H; subst.
+    split; [|reflexivity]. rewrite andb_true_r. apply forallb_opt_ok. exact V.
+Qed.
+
+(* ---------- values ---------- *)
+Lemma lastv_app l1 l2 d : lastv (l1 ++ l2) d = lastv l2 (lastv l1 d).
+Proof. apply fold_left_app. Qed.
+
+Lemma lastv_nonempty l d d' : l <> [] -> lastv l d = lastv l d'.
+Proof. destruct l as [|x t]; [congruence|]. intros _. reflexivity. Qed.
+
+Lemma last_nonempty_default {A} (l : list A) d d' : l <> [] -> last l d = last l d'.
+Proof.
+  induction l as [|x t IH]; [congruence|]. intros _. destruct t; [reflexivity|].
+  change (last (x :: a :: t) d) with (last (a :: t) d). change (last (x :: a :: t) d') with (last (a :: t) d').
+  apply IH. discriminate.
+Qed.
+
+Lemma lastv_last l d : lastv l d = last l d.
+Proof.
+  revert d. induction l as [|x t IH]; intro d; [reflexivity|].
+  change (lastv (x :: t) d) with (lastv t x). rewrite IH. destruct t; [reflexivity|].
+  change (last (x :: v :: t) d) with (last (v :: t) d). apply last_nonempty_default. discriminate.
+Qed.
+
+Lemma vals_app f l1 l2 : vals f (l1 ++ l2) = vals f l1 ++ vals f l2.
+Proof. apply flat_map_app. Qed.
+
+Lemma raw_val_app f l1 l2 v : raw_val f (l1 ++ l2) v = raw_val f l2 (raw_val f l1 v).
+Proof. apply fold_left_app. Qed.
+
+(* overwrite settings: the fold of assignments is "the last value, else what was there" *)
+Lemma writes_val_lastv f ws : (forall w, In w ws -> is_app w = true -> w_field w <> f) ->
+  forall v, writes_val f ws v = lastv (wvals f ws) v.
+Proof.
+  unfold writes_val, wvals. induction ws as [|w t IH]; intros H v; simpl; [reflexivity|].
+  rewrite lastv_app, <- IH by (intros w' Hw'; apply H; right; exact Hw'). f_equal.
+  destruct (field_beq f (w_field w)) eqn:E; [|reflexivity]. apply field_beq_true in E.
+  pose proof (H w (or_introl eq_refl)) as Hw. destruct w; simpl in *; try reflexivity.
+  exfalso. apply Hw; auto.
+Qed.
+
+Lemma raw_val_lastv f opts : f <> FL FExtraArgs -> forall v, raw_val f opts v = lastv (vals f opts) v.
+Proof.
+  intros Hf. unfold raw_val, vals. induction opts as [|o t IH]; intro v; simpl; [reflexivity|].
+  rewrite lastv_app, <- IH. f_equal. apply writes_val_lastv.
+  intros w Hw Ha E. apply Hf. rewrite <- E. apply (app_only_extra o); assumption.
+Qed.
+
+(* the additive setting: everything given, in order *)
+Lemma lists_of_app a b : lists_of (a ++ b) = lists_of a ++ lists_of b.
+Proof. apply flat_map_app. Qed.
+
+Lemma writes_val_additive f ws : (forall w, In w ws -> w_field w = f -> is_app w = true) ->
+  forall l, writes_val f ws (VL l) = VL (l ++ lists_of (wvals f ws)).
+Proof.
+  unfold writes_val, wvals. induction ws as [|w t IH]; intros H l; simpl.
+  - rewrite app_nil_r. reflexivity.
+  - destruct (field_beq f (w_field w)) eqn:E.
+    + apply field_beq_true in E. pose proof (H w (or_introl eq_refl) (eq_sym E)) as Hw.
+      destruct w; simpl in Hw; try discriminate. simpl.
+      rewrite IH by (intros w' Hw'; apply H; right; exact Hw'). rewrite <- app_assoc. reflexivity.
+    + simpl. apply IH. intros w' Hw'. apply H. right. exact Hw'.
+Qed.
+
+Lemma raw_val_additive opts : forall l,
+  raw_val (FL FExtraArgs) opts (VL l) = VL (l ++ lists_of (vals (FL FExtraArgs) opts)).
+Proof.
+  unfold raw_val, vals. induction opts as [|o t IH]; intro l; simpl.
+  - rewrite app_nil_r. reflexivity.
+  - rewrite writes_val_additive by (intros w Hw E; apply (extra_only_app o); assumption).
+    rewrite IH, lists_of_app, app_assoc. reflexivity.
+Qed.
+
+Lemma wvals_nil_unnamed f o : wvals f (opt_writes o) = [] -> ~ names o f.
+Proof.
+  unfold wvals, names. induction (opt_writes o) as [|w t IH]; simpl; [auto|].
+  destruct (field_beq f (w_field w)) eqn:E; simpl; [discriminate|].
+  intros H [A|B]; [rewrite A, field_beq_refl in E; discriminate | exact (IH H B)].
+Qed.
+
+Lemma raw_val_unnamed f opts v : vals f opts = [] -> raw_val f opts v = v.
+Proof.
+  unfold raw_val, vals. revert v. induction opts as [|o t IH]; intros v H; simpl in *; [reflexivity|].
+  apply app_eq_nil in H. destruct H as [H1 H2]. rewrite writes_val_unnamed by (apply wvals_nil_unnamed; exact H1).
+  apply IH. exact H2.
+Qed.
+
+(* ---------- derived settings touch nothing else ---------- *)
+Lemma get_setS_other f g v s : f <> FS g -> get f (setS g v s) = get f s.
+Proof. intros H. change (setS g v s) with (w_apply (WS g v) s). rewrite get_w. simpl. rewrite field_beq_neq by exact H. reflexivity. Qed.
+Lemma get_setN_other f g v s : f <> FN g -> get f (setN g v s) = get f s.
+Proof. intros H. change (setN g v s) with (w_apply (WN g v) s). rewrite get_w. simpl. rewrite field_beq_neq by exact H. reflexivity. Qed.
+Lemma get_setB_other f g v s : f <> FB g -> get f (setB g v s) = get f s.
+Proof. intros H. change (setB g v s) with (w_apply (WB g v) s). rewrite get_w. simpl. rewrite field_beq_neq by exact H. reflexivity. Qed.
+
+Lemma derive_get c f s : derived (c_kind c) f = false -> get f (derive c s) = get f s.
+Proof.
+  unfold derive, derived. destruct (c_kind c); intro H.
+  - reflexivity.
+  - unfold derive_network. apply get_setS_other. apply field_beq_false. exact H.
+  - apply orb_false_iff in H. destruct H as [H H3]. apply orb_false_iff in H. destruct H as [H1 H2].
+    unfold derive_netconf. rewrite get_setS_other by (apply field_beq_false; exact H1).
+    rewrite get_setN_other by (apply field_beq_false; exact H3).
+    destruct (exists_obj c OSSHArgs); [|reflexivity].
+    apply get_setB_other. apply field_beq_false. exact H2.
+Qed.
+
+Lemma ctx_of_kind k opts : c_kind (ctx_of k opts) = k.
+Proof. reflexivity. Qed.
+
+(* the value of every non-derived setting of a successful construction *)
+Lemma build_get k opts s f : build k opts = Ok s -> derived k f = false ->
+  get f s = if exists_obj (ctx_of k opts) (field_obj f) then raw_val f opts (get f defaults) else get f defaults.
+Proof.
+  intros H D. apply build_ok_iff in H. destruct H as [_ ->]. unfold spec.
+  rewrite derive_get by exact D. apply settled_get.
+Qed.
+
+(* ================= the property ================= *)
+
+Theorem last_wins k opts s f : build k opts = Ok s ->
+  derived k f = false -> f <> FL FExtraArgs -> exists_obj (ctx_of k opts) (field_obj f) = true ->
+  get f s = lastv (vals f opts) (get f defaults).
+Proof.
+  intros H D A E. rewrite (build_get k opts s f H D), E. apply raw_val_lastv. exact A.
+Qed.
+
+Theorem additive k opts s : build k opts = Ok s -> exists_obj (ctx_of k opts) OSystem = true ->
+  get (FL FExtraArgs) s = VL (lists_of (vals (FL FExtraArgs) opts)).
+Proof.
+  intros H E. rewrite (build_get k opts s (FL FExtraArgs) H) by (destruct k; reflexivity).
+  change (field_obj (FL FExtraArgs)) with OSystem. rewrite E.
+  change (get (FL FExtraArgs) defaults) with (VL []). apply raw_val_additive.
+Qed.
+
+Theorem frame k opts s f : build k opts = Ok s -> derived k f = false -> vals f opts = [] ->
+  get f s = get f defaults.
+Proof.
+  intros H D V. rewrite (build_get k opts s f H D). destruct (exists_obj _ _); [|reflexivity].
+  apply raw_val_unnamed. exact V.
+Qed.
+
+(* a setting of an object this construction does not create stays at its default *)
+Theorem absent_default k opts s f : build k opts = Ok s -> derived k f = false ->
+  exists_obj (ctx_of k opts) (field_obj f) = false -> get f s = get f defaults.
+Proof. intros H D E. rewrite (build_get k opts s f H D), E. reflexivity. Qed.
+
+(* the derived settings, stated as what they are *)
+Theorem derived_network opts s : build Network opts = Ok s ->
+  get (FS FPromptPattern) s = VS (join [BAR] (getL FPrivilegeLevels s)).
+Proof.
+  intros H. apply build_ok_iff in H. destruct H as [_ ->]. unfold spec, derive. rewrite ctx_of_kind.
+  unfold derive_network. reflexivity.
+Qed.
+
+Theorem derived_netconf opts s : build Netconf opts = Ok s ->
+  get (FS FPromptPattern) s = VS rx_ncd_v1Dot0Delim_src
+  /\ get (FN FLogger) s = VN 0
+  /\ (exists_obj (ctx_of Netconf opts) OSSHArgs = true -> get (FB FNetconfConnection) s = VB true).
+Proof.
+  intros H. apply build_ok_iff in H. destruct H as [_ ->]. unfold spec, derive. rewrite ctx_of_kind.
+  unfold derive_netconf. repeat split. intros E. rewrite E. reflexivity.
+Qed.
+
+(* ---------- order does not matter between options naming different settings ---------- *)
+Definition disjoint (a b : opt) : Prop := forall f, ~ (names a f /\ names b f).
+
+Lemma raw_val_swap f l1 a b l2 v : disjoint a b ->
+  raw_val f (l1 ++ a :: b :: l2) v = raw_val f (l1 ++ b :: a :: l2) v.
+Proof.
+  intros D. rewrite !raw_val_app. unfold raw_val at 1 3. simpl. f_equal.
+  destruct (names_dec a f) as [Na|Na].
+  - assert (~ names b f) as Nb by (intro Nb; exact (D f (conj Na Nb))).
+    rewrite !(writes_val_unnamed f b) by exact Nb. reflexivity.
+  - rewrite !(writes_val_unnamed f a) by exact Na. reflexivity.
+Qed.
+
+Lemma raw_settled_swap l1 a b l2 : disjoint a b ->
+  raw_settled (l1 ++ a :: b :: l2) = raw_settled (l1 ++ b :: a :: l2).
+Proof.
+  intros D. apply settings_ext. intro f. rewrite !raw_settled_get. apply raw_val_swap. exact D.
+Qed.
+
+Lemma ctx_of_swap k l1 a b l2 : disjoint a b -> ctx_of k (l1 ++ a :: b :: l2) = ctx_of k (l1 ++ b :: a :: l2).
+Proof. intros D. unfold ctx_of. rewrite (raw_settled_swap l1 a b l2 D). reflexivity. Qed.
+
+Lemma settled_swap c l1 a b l2 : disjoint a b -> settled c (l1 ++ a :: b :: l2) = settled c (l1 ++ b :: a :: l2).
+Proof.
+  intros D. apply settings_ext. intro f. rewrite !settled_get. destruct (exists_obj c (field_obj f)); [|reflexivity].
+  apply raw_val_swap. exact D.
+Qed.
+
+Lemma forallb_swap {A} (p : A -> bool) l1 a b l2 : forallb p (l1 ++ a :: b :: l2) = forallb p (l1 ++ b :: a :: l2).
+Proof. rewrite !forallb_app. simpl. f_equal. rewrite !andb_assoc. f_equal. apply andb_comm. Qed.
+
+Lemma valid_spec_swap k l1 a b l2 : disjoint a b ->
+  valid k (l1 ++ a :: b :: l2) = valid k (l1 ++ b :: a :: l2) /\ spec k (l1 ++ a :: b :: l2) = spec k (l1 ++ b :: a :: l2).
+Proof.
+  intros D. unfold valid, spec. rewrite (ctx_of_swap k l1 a b l2 D). set (c := ctx_of k _).
+  rewrite (settled_swap c l1 a b l2 D), (forallb_swap (opt_ok c) l1 a b l2). auto.
+Qed.
+
+Theorem perm k l1 a b l2 s : disjoint a b ->
+  build k (l1 ++ a :: b :: l2) = Ok s -> build k (l1 ++ b :: a :: l2) = Ok s.
+Proof.
+  intros D. rewrite !build_ok_iff. destruct (valid_spec_swap k l1 a b l2 D) as [-> ->]. auto.
+Qed.
+
+(* ... and a failing list still fails after the swap *)
+Theorem perm_fails k l1 a b l2 : disjoint a b ->
+  (exists e, build k (l1 ++ a :: b :: l2) = Err e) -> exists e, build k (l1 ++ b :: a :: l2) = Err e.
+Proof.
+  intros D [e H]. destruct (build k (l1 ++ b :: a :: l2)) as [s|e'|] eqn:B.
+  - exfalso. assert (disjoint b a) as D' by (intros f [X Y]; exact (D f (conj Y X))).
+    rewrite (perm k l1 b a l2 s D' B) in H. discriminate.
+  - eauto.
+  - exfalso. exact (build_no_panic _ _ B).
+Qed.
+
+(* ---------- invalid values are rejected wherever they stand ---------- *)
+Theorem invalid_anywhere k l1 o l2 :
+  opt_fail (ctx_of k (l1 ++ o :: l2)) o <> None -> exists e, build k (l1 ++ o :: l2) = Err e.
+Proof.
+  intros F. destruct (build k (l1 ++ o :: l2)) as [s|e|] eqn:B.
+  - exfalso. apply build_ok_iff in B. destruct B as [V _]. apply andb_true_iff in V. destruct V as [V _].
+    rewrite forallb_opt_ok in V. apply F. apply V. apply in_or_app. right. left. reflexivity.
+  - eauto.
+  - exfalso. exact (build_no_panic _ _ B).
+Qed.
+
+(* the error is a bad-option error unless some option of the list fails with file-not-found *)
+Theorem invalid_is_badoption k opts e : build k opts = Err e ->
+  (forall o, In o opts -> opt_fail (ctx_of k opts) o <> Some EFileNotFound) -> e = EBadOption.
+Proof.
+  intros B H. destruct (build_err_char k opts e B) as [(o & Ho & F)|[-> _]]; [|reflexivity].
+  destruct e; [reflexivity|]. exfalso. exact (H o Ho F).
+Qed.
+
+(* ---------- options that do not apply are ignored without error ---------- *)
+Lemma pass_skip ob l1 o l2 s : pre_ok o = true -> opt_target o <> ob ->
+  pass ob (l1 ++ o :: l2) s = pass ob (l1 ++ l2) s.
+Proof.
+  intros Hp Ht. rewrite !pass_app. destruct (pass ob l1 s) as [s1| |]; cbn [bind]; try reflexivity.
+  cbn [pass]. rewrite apply_on_char. unfold fail_on. rewrite Hp, (obj_beq_neq _ _ Ht). reflexivity.
+Qed.
+
+Lemma passes_skip c obs l1 o l2 : pre_ok o = true -> exists_obj c (opt_target o) = false ->
+  forall s, passes c obs (l1 ++ o :: l2) s = passes c obs (l1 ++ l2) s.
+Proof.
+  intros Hp He. induction obs as [|ob t IH]; intro s; cbn [passes]; [reflexivity|].
+  unfold pass_if. destruct (exists_obj c ob) eqn:E.
+  - rewrite pass_skip by (auto; intro X; rewrite X in He; congruence).
+    destruct (pass ob (l1 ++ l2) s); cbn [bind]; auto.
+  - cbn [bind]. apply IH.
+Qed.
+
+Theorem ignored_no_error k l1 o l2 :
+  pre_ok o = true -> exists_obj (ctx_of k (l1 ++ o :: l2)) (opt_target o) = false ->
+  build k (l1 ++ o :: l2) = build k (l1 ++ l2).
+Proof.
+  intros Hp He.
+  assert (opt_target o <> OGeneric /\ opt_target o <> OArgs) as [T1 T2]
+    by (split; intro X; rewrite X in He; discriminate).
+  unfold build. rewrite (pass_skip OGeneric l1 o l2 defaults Hp T1).
+  destruct (pass OGeneric (l1 ++ l2) defaults) as [s1| |] eqn:P1; cbn [bind]; try reflexivity.
+  rewrite (pass_skip OArgs l1 o l2 s1 Hp T2).
+  destruct (pass OArgs (l1 ++ l2) s1) as [s2| |] eqn:P2; cbn [bind]; try reflexivity.
+  assert (P1' : pass OGeneric (l1 ++ o :: l2) defaults = Ok s1) by (rewrite pass_skip; auto).
+  assert (P2' : pass OArgs (l1 ++ o :: l2) s1 = Ok s2) by (rewrite pass_skip; auto).
+  rewrite <- (ctx_eq k _ s1 s2 P1' P2') in He.
+  rewrite (passes_skip _ later_objs l1 o l2 Hp He). reflexivity.
+Qed.
+
+(* instances: what each constructor ignores outright *)
+Definition foreign (k : ctor_kind) (ob : obj) : bool :=
+  match ob, k with
+  | ONetwork, Network | ONetconf, Netconf => false
+  | ONetwork, _ | ONetconf, _ => true
+  | _, _ => false
+  end.
+
+Corollary ignored_foreign k l1 o l2 : pre_ok o = true -> foreign k (opt_target o) = true ->
+  build k (l1 ++ o :: l2) = build k (l1 ++ l2).
+Proof.
+  intros Hp Hf. apply ignored_no_error; [exact Hp|].
+  destruct (opt_target o), k; simpl in *; try discriminate; reflexivity.
+Qed.
+
+(* ---------- user options override a platform definition's ---------- *)
+Theorem user_over_platform k plat user s f : build k (plat ++ user) = Ok s ->
+  derived k f = false -> f <> FL FExtraArgs -> exists_obj (ctx_of k (plat ++ user)) (field_obj f) = true ->
+  get f s = lastv (vals f user) (lastv (vals f plat) (get f defaults)).
+Proof.
+  intros H D A E. rewrite (last_wins k _ s f H D A E), vals_app, lastv_app. reflexivity.
+Qed.
+
+Corollary user_wins k plat user s f : build k (plat ++ user) = Ok s ->
+  derived k f = false -> f <> FL FExtraArgs -> exists_obj (ctx_of k (plat ++ user)) (field_obj f) = true ->
+  vals f user <> [] -> forall d, get f s = lastv (vals f user) d.
+Proof.
+  intros H D A E V d. rewrite (user_over_platform k plat user s f H D A E). apply lastv_nonempty. exact V.
+Qed.
+
+Theorem user_after_platform_additive k plat user s : build k (plat ++ user) = Ok s ->
+  exists_obj (ctx_of k (plat ++ user)) OSystem = true ->
+  get (FL FExtraArgs) s = VL (lists_of (vals (FL FExtraArgs) plat) ++ lists_of (vals (FL FExtraArgs) user)).
+Proof. intros H E. rewrite (additive k _ s H E), vals_app, lists_of_app. reflexivity. Qed.
+
+(* ---------- platform definitions ---------- *)
+Definition open_args_name : bytes := bs "transport-system-open-args".
+
+Lemma in_modelled_platform n : In n modelled_platform_options ->
+  n = bs "port" \/ n = bs "auth-bypass" \/ n = bs "auth-strict-key" \/ n = bs "prompt-pattern"
+  \/ n = bs "username-pattern" \/ n = bs "password-pattern" \/ n = bs "passphrase-pattern"
+  \/ n = bs "return-char" \/ n = bs "read-delay" \/ n = bs "timeout-ops" \/ n = bs "transport-type"
+  \/ n = bs "read-size" \/ n = bs "transport-pty-height" \/ n = bs "transport-pty-width"
+  \/ n = open_args_name.
+Proof. unfold modelled_platform_options. simpl. intuition. Qed.
+
+(* every recognised name other than transport-system-open-args, with a value of its documented
+   type, becomes an option (no panic) *)
+Theorem platform_option_typed n v : In n modelled_platform_options -> n <> open_args_name ->
+  well_typed (n, v) = true -> exists o, platform_option n v = Ok o.
+Proof.
+  intros Hin Hne. apply in_modelled_platform in Hin.
+  repeat (destruct Hin as [->|Hin]); try (subst n; congruence);
+    destruct v; vm_compute; intro; try discriminate; eexists; reflexivity.
+Qed.
+
+(* ... and the option it becomes names the setting the platform documentation says *)
+Theorem platform_option_effect :
+  platform_option (bs "port") (YInt 2022) = Ok (WithPort 2022)
+  /\ platform_option (bs "read-delay") (YFloat4 6) = Ok (WithReadDelay 1500000000)
+  /\ platform_option (bs "timeout-ops") (YFloat4 8) = Ok (WithTimeoutOps 2000000000)
+  /\ platform_option (bs "return-char") (YStr [13; 10]) = Ok (WithReturnChar [13; 10])
+  /\ platform_option (bs "auth-bypass") (YBool true) = Ok WithAuthBypass
+  /\ platform_option (bs "auth-strict-key") (YBool false) = Ok WithAuthNoStrictKey.
+Proof. repeat split; vm_compute; reflexivity. Qed.
+
+(* REFUTED part of the property: the documented type of transport-system-open-args is a list of
+   strings, and with ANY YAML value the assertion `.([]string)` fails: panic *)
+Theorem open_args_panics v : platform_option open_args_name v = Panic.
+Proof. vm_compute. reflexivity. Qed.
+
+Lemma platform_options_no_err defs e : platform_options defs <> Err e.
+Proof.
+  induction defs as [|[n v] t IH]; simpl; [discriminate|].
+  assert (platform_option n v <> Err e) as H.
+  { unfold platform_option.
+    repeat match goal with |- (if ?b then _ else _) <> _ => destruct b end;
+      try discriminate; destruct v; discriminate. }
+  destruct (platform_option n v) as [o| |]; cbn [bind]; try congruence.
+  destruct (platform_options t) as [os| |]; cbn [bind]; congruence.
+Qed.
+
+Lemma platform_options_panic defs n v : In (n, v) defs -> platform_option n v = Panic ->
+  platform_options defs = Panic.
+Proof.
+  induction defs as [|[n' v'] t IH]; intros Hin Hp; simpl in *; [contradiction|].
+  destruct Hin as [E|Hin].
+  - inversion E; subst. rewrite Hp. reflexivity.
+  - destruct (platform_option n' v') as [o|e|] eqn:P; cbn [bind]; try reflexivity.
+    + rewrite (IH Hin Hp). reflexivity.
+    + unfold platform_option in P.
+      exfalso. revert P. repeat match goal with |- (if ?b then _ else _) = _ -> _ => destruct b end;
+        try discriminate; destruct v'; discriminate.
+Qed.
+
+Theorem platform_open_args_panics p user v : In (open_args_name, v) (pd_options p) ->
+  build_platform p user = Panic.
+Proof.
+  intros Hin. unfold build_platform, platform_opts.
+  rewrite (platform_options_panic _ _ _ Hin (open_args_panics v)). reflexivity.
+Qed.
+
+Theorem platform_typed_ok defs :
+  (forall d, In d defs -> In (fst d) modelled_platform_options /\ fst d <> open_args_name /\ well_typed d = true) ->
+  exists os, platform_options defs = Ok os /\ length os = length defs.
+Proof.
+  induction defs as [|[n v] t IH]; intros H; simpl.
+  - exists []. auto.
+  - destruct (H (n, v) (or_introl eq_refl)) as (Hin & Hne & Hty). simpl in Hin, Hne.
+    destruct (platform_option_typed n v Hin Hne Hty) as [o ->]. cbn [bind].
+    destruct (IH (fun d Hd => H d (or_intror Hd))) as (os & -> & Hl). cbn [bind].
+    exists (o :: os). simpl. auto.
+Qed.
+
+(* ---------- non-vacuity: concrete constructions, by computation ---------- *)
+Definition ex_opts : list opt :=
+  [ WithPort 23; WithTransportType tt_standard; WithAuthSecondary (bs "enable");
+    WithSystemTransportOpenArgs [bs "-v"]; WithPort 2022; WithStandardTransportExtraCiphers [bs "3des-cbc"];
+    WithAuthNoStrictKey; WithNetconfPreferredVersion (bs "1.1") ].
+
+Example ex_generic :
+  match build Generic ex_opts with
+  | Ok s => getN FPort s = 2022 /\ getS FTransportType s = tt_standard /\ getB FStrictKey s = false
+            /\ getL FExtraCiphers s = [bs "3des-cbc"] /\ getL FExtraArgs s = [] /\ getS FAuthSecondary s = []
+  | _ => False
+  end.
+Proof. vm_compute. repeat split. Qed.
+
+Example ex_netconf :
+  match build Netconf ex_opts with
+  | Ok s => getN FPort s = 2022 /\ getS FPreferredVersion s = bs "1.1" /\ getB FNetconfConnection s = true
+            /\ getS FPromptPattern s = rx_ncd_v1Dot0Delim_src
+  | _ => False
+  end.
+Proof. vm_compute. repeat split. Qed.
+
+Example ex_network_needs_privileges : build Network ex_opts = BadOption.
+Proof. vm_compute. reflexivity. Qed.
+
+Example ex_invalid_version_everywhere :
+  build Generic (ex_opts ++ [WithNetconfPreferredVersion (bs "1.2")]) = BadOption
+  /\ build Generic (WithTransportType (bs "ssh2") :: ex_opts) = BadOption
+  /\ build Generic (ex_opts ++ [WithSSHConfigFile (bs "/missing") false]) = FileNotFound.
+Proof. repeat split; vm_compute; reflexivity. Qed.
+
+Example ex_additive :
+  match build Generic [WithSystemTransportOpenArgs [bs "-a"]; WithPort 1; WithSystemTransportOpenArgs [bs "-b"; bs "-c"]] with
+  | Ok s => getL FExtraArgs s = [bs "-a"; bs "-b"; bs "-c"]
+  | _ => False
+  end.
+Proof. vm_compute. reflexivity. Qed.
+
+Example ex_platform :
+  let p := mkPdef Network [bs "% Error"] true false [bs "^a>$"; bs "^a#$"] (bs "p0") true false
+                  [(bs "port", YInt 23); (bs "timeout-ops", YFloat4 8); (bs "return-char", YStr [13; 10])] in
+  match build_platform p [WithPort 2022; WithOnOpen 1] with
+  | Ok s => getN FPort s = 2022 /\ getN FOnOpen s = 1 /\ getN FNetOnOpen s = platform_tag
+            /\ getN FTimeoutOps s = 2000000000 /\ getS FReturnChar s = [13; 10]
+            /\ getS FPromptPattern s = bs "^a>$|^a#$"
+  | _ => False
+  end.
+Proof. vm_compute. repeat split. Qed.
